@@ -452,10 +452,35 @@ func d18Head(s string, n int) string {
 
 // d18CheckFull = in-process check, with the detour through a child process for closes that are
 // predicted to kill the process.
+var d18GuardOff, d18CanaryDone bool
+
+// d18Canary: the minimal trigger of the recursion (INIT, one WILL_LOCK on a free key, EOF) executed in a
+// child process once per test process. If the child survives, the tree under test does not have the
+// defect and the guard (with its detour through child processes) is switched off.
+func d18Canary() {
+	if d18CanaryDone {
+		return
+	}
+	d18CanaryDone = true
+	c := &d18Case{Steps: []d18Step{
+		{K: "open", C: 0},
+		{K: "send", C: 0, Cmds: []d18Cmd{{Op: "init", Cid: 0}, {Op: "will_lock", Key: 0, Id: 0, T: 0, E: 10}}},
+		{K: "close", C: 0, How: "eof"},
+	}}
+	viol, err := d18RunChild(c)
+	if err == nil && viol == nil {
+		d18GuardOff = true
+	}
+}
+
 func d18CheckFull(c *d18Case) (d18Info, *d18Violation, error) {
-	info, viol, err := d18Check(c, false)
+	info, viol, err := d18Check(c, d18GuardOff)
 	if err != nil || viol != nil || !info.NeedChild {
 		return info, viol, err
+	}
+	d18Canary()
+	if d18GuardOff {
+		return d18Check(c, true)
 	}
 	viol, err = d18RunChild(c)
 	if err != nil {
